@@ -62,6 +62,8 @@ TInt, TReal, TBool, TStr, TNone, TKey, TAny = (T(x) for x in ('int', 'real', 'bo
 
 
 TVec = T('vec')
+TArr1, TArr1i, TArr2 = T('arr1'), T('arr1i'), T('arr2')     # local numpy arrays (value semantics; see np_* rules)
+A2 = z3.ArraySort(I, I, R)
 
 
 def TRef(cls): return T('ref', cls)
@@ -256,6 +258,9 @@ def fresh_value(ty, base):
         return V(ty, items=[fresh_value(t, '%s.%d' % (base, i)) for i, t in enumerate(ty.a)])
     if ty.k == 'none':
         return VNONE
+    if ty.k in ('arr1', 'arr1i', 'arr2'):
+        srt = {'arr1': IA_R, 'arr1i': IA_I, 'arr2': A2}[ty.k]
+        return V(ty, fresh(base, srt), items=[fresh(base + '.n%d' % i, I) for i in range(2 if ty.k == 'arr2' else 1)], py='fresh')
     return V(ty, fresh(base, smt_sort(ty)))
 
 
@@ -494,6 +499,14 @@ class Engine:
                 return mk(x * x)
         if a.ty.k == 'vec' or b.ty.k == 'vec':
             return self.vec_arith(op, a, b, st, line)
+        if a.ty.k == 'arr2' or b.ty.k == 'arr2':
+            ii, jj = fresh('i', I), fresh('j', I)
+            if isinstance(op, ast.Add) and a.ty.k == 'arr2' and b.ty.k == 'arr2':
+                self.emit('safe.broadcast@%d' % line, st, z3.And(a.items[0] == b.items[0], a.items[1] == b.items[1]), line, tag='aux')
+                return V(TArr2, z3.Lambda([ii, jj], a.t[ii, jj] + b.t[ii, jj]), items=a.items, py='fresh')
+            if isinstance(op, ast.Div) and a.ty.k == 'arr2' and b.ty.k in ('int', 'real') and z3.is_false(z3.simplify(to_real(b.t) == 0)):
+                return V(TArr2, z3.Lambda([ii, jj], a.t[ii, jj] / to_real(b.t)), items=a.items, py='fresh')
+            raise OutOfSubset('2-D array operator %s at line %d' % (type(op).__name__, line))
         name = {ast.Add: '__add__', ast.Sub: '__sub__', ast.Mult: '__mul__', ast.Div: '__truediv__',
                 ast.Pow: '__pow__'}.get(type(op))
         rname = {ast.Add: '__radd__', ast.Sub: '__rsub__', ast.Mult: '__rmul__', ast.Div: '__rtruediv__', ast.Pow: '__rpow__'}.get(type(op))
@@ -574,6 +587,10 @@ class Engine:
         if isinstance(op, (ast.Eq, ast.NotEq)):
             r = self.equal(a, b, st, line)
             return vbool(r if isinstance(op, ast.Eq) else z3.Not(r))
+        if a.ty.k == 'opt' and a.ty.a[0].k == 'int':
+            a = self.as_int(st, a, line)
+        if b.ty.k == 'opt' and b.ty.a[0].k == 'int':
+            b = self.as_int(st, b, line)
         if a.ty.k in ('int', 'real') and b.ty.k in ('int', 'real'):
             x, y = (a.t, b.t) if a.ty.k == b.ty.k else (to_real(a.t), to_real(b.t))
             f = {ast.Lt: lambda: x < y, ast.LtE: lambda: x <= y, ast.Gt: lambda: x > y, ast.GtE: lambda: x >= y}[type(op)]
@@ -618,6 +635,9 @@ class Engine:
         base = self.ev(e.value, st)
         if base.ty.k == 'py':
             return vpy(('attr', base.py, e.attr))
+        if base.ty.k == 'arr2' and e.attr == 'T':
+            ii, jj = fresh('i', I), fresh('j', I)
+            return V(TArr2, z3.Lambda([ii, jj], base.t[jj, ii]), items=[base.items[1], base.items[0]], py='fresh')
         base = self.as_ref(st, base, e.lineno) if base.ty.k == 'key' else base
         if base.ty.k == 'opt':
             self.emit('safe.not_none@%d' % e.lineno, st, z3.Not(base.none), e.lineno, tag='aux')
@@ -659,8 +679,37 @@ class Engine:
             return to_real(t)
         return t
 
+    def as_int(self, st, v, line):
+        """an int-valued index; an Optional[int] (e.g. `.counter`) must not be None here (TypeError otherwise)"""
+        if v.ty.k == 'opt' and v.ty.a[0].k == 'int':
+            self.emit('safe.index_not_none@%d' % line, st, z3.Not(v.none), line, tag='aux')
+            st.pc.append(z3.Not(v.none))
+            return vint(v.t)
+        return v
+
+    def np_index(self, st, arr, idx, dim, line):
+        """numpy index into axis `dim`: must be an int in [-n, n); negative indices wrap"""
+        n = arr.items[dim]
+        self.emit('safe.IndexError@%d' % line, st, z3.And(idx >= -n, idx < n), line, tag='aux')
+        return z3.If(idx >= 0, idx, idx + n)
+
     def ev_Subscript(self, e, st):
         base = self.ev(e.value, st)
+        if base.ty.k in ('arr1', 'arr1i'):
+            idx = self.as_int(st, self.ev(e.slice, st), e.lineno)
+            if idx.ty.k != 'int':
+                raise OutOfSubset('array index of type %r at line %d' % (idx.ty, e.lineno))
+            i = self.np_index(st, base, idx.t, 0, e.lineno)
+            return vreal(base.t[i]) if base.ty.k == 'arr1' else vint(base.t[i])
+        if base.ty.k == 'arr2':
+            idx = self.ev(e.slice, st)
+            if idx.ty.k == 'tuple':
+                idx = V(idx.ty, items=[self.as_int(st, x, e.lineno) for x in idx.items])
+            if idx.ty.k == 'tuple' and len(idx.items) == 2 and all(x.ty.k == 'int' for x in idx.items):
+                i = self.np_index(st, base, idx.items[0].t, 0, e.lineno)
+                j = self.np_index(st, base, idx.items[1].t, 1, e.lineno)
+                return vreal(base.t[i, j])
+            raise OutOfSubset('2-D array index at line %d' % e.lineno)
         if base.ty.k == 'dict':
             k = self.to_key(st, self.ev(e.slice, st))
             self.emit('safe.KeyError@%d' % e.lineno, st, st.heap.has(base.t, k), e.lineno, tag='aux')
@@ -809,6 +858,8 @@ class Engine:
                     dom = st.heap.dom(v.t)
                     st.pc += [dcard(dom) >= 0, (dcard(dom) == 0) == (dom == z3.K(Key, False))]
                     return vint(dcard(dom))
+            if n in ('max', 'min') and len(args) == 2:
+                args = [self.as_int(st, a, line) for a in args]
             if n in ('max', 'min') and len(args) == 2 and all(a.ty.k == 'int' for a in args):
                 a, b = args
                 return vint(z3.If((a.t >= b.t) if n == 'max' else (a.t <= b.t), a.t, b.t))
@@ -832,9 +883,30 @@ class Engine:
             return self.apply_contract(st, self.reg.lookup_function(what[1]), args, kw, line, what[1])
         if what[0] == 'attr' and what[1] == ('module', 'warnings') and what[2] == 'warn':
             return VNONE          # dropped (extraction report)
+        if what[0] == 'attr' and what[1] == ('module', 'np') and what[2] == 'zeros' and len(args) == 1 and args[0].ty.k == 'tuple':
+            dims = args[0].items
+            if all(d.ty.k == 'int' for d in dims) and len(dims) == 1:
+                self.emit('safe.shape@%d' % line, st, dims[0].t >= 0, line, tag='aux')
+                return V(TArr1, z3.K(I, z3.RealVal(0)), items=[dims[0].t], py='fresh')
+            if all(d.ty.k == 'int' for d in dims) and len(dims) == 2:
+                self.emit('safe.shape@%d' % line, st, z3.And(dims[0].t >= 0, dims[1].t >= 0), line, tag='aux')
+                ii, jj = fresh('i', I), fresh('j', I)
+                return V(TArr2, z3.Lambda([ii, jj], z3.RealVal(0)), items=[dims[0].t, dims[1].t], py='fresh')
+            raise OutOfSubset('np.zeros shape at line %d' % line)
         if what[0] == 'attr' and what[1] == ('module', 'np') and what[2] == 'zeros' and len(args) == 1 and args[0].ty.k == 'int':
             st.pc.append(vdim(vzero(args[0].t)) == args[0].t)
             return V(TVec, vzero(args[0].t), py='fresh')
+        if what[0] == 'attr' and what[1] == ('module', 'np') and what[2] == 'array' and len(args) == 1 and args[0].ty.k == 'list':
+            l = args[0]
+            et = l.ty.a[0]
+            if et.k == 'real':
+                return V(TArr1, st.heap.A('eltR')[l.t], items=[st.heap.len(l.t)], py='fresh')
+            if et.k == 'int':
+                return V(TArr1i, st.heap.A('eltI')[l.t], items=[st.heap.len(l.t)], py='fresh')
+            if et.k == 'any':
+                # never appended to: an empty array
+                return V(TArr1, z3.K(I, z3.RealVal(0)), items=[st.heap.len(l.t)], py='fresh')
+            raise OutOfSubset('np.array of a list of %r at line %d' % (et, line))
         if what[0] == 'attr' and what[1] == ('module', 'np') and what[2] == 'dot' and len(args) == 2 and all(x.ty.k == 'vec' for x in args):
             self.emit('safe.dot_shapes@%d' % line, st, vdim(args[0].t) == vdim(args[1].t), line, tag='aux')
             return vreal(vdot(args[0].t, args[1].t))
@@ -928,6 +1000,8 @@ class Engine:
 
     def list_append(self, st, lst, v, line):
         et = lst.ty.a[0]
+        if v.ty.k == 'opt' and v.ty.a[0].k == 'int' and et.k in ('int', 'any'):
+            v = self.as_int(st, v, line)
         n = st.heap.len(lst.t)
         if et.k == 'any':
             # first append fixes the element type of a local list
@@ -1080,6 +1154,10 @@ class Engine:
         if isinstance(target, ast.Name):
             self.note_local(target.id)
             hint = getattr(self.c, 'local_types', {}).get(target.id)
+            if isinstance(hint, T):
+                if v.ty.k == 'list' and v.ty.a[0].k == 'any' and hint.k == 'list':
+                    v = V(hint, v.t)                  # element type of a local list declared by the side-car
+                hint = None
             if hint and v.ty.k == 'key':
                 ok = z3.And(is_Obj(v.t), isinstance_f(st.heap.A('cls'), oid(v.t), hint))
                 self.emit('safe.local_type[%s:%s]@%d' % (target.id, hint, line), st, ok, line, tag='aux')
@@ -1108,6 +1186,8 @@ class Engine:
             return
         if isinstance(target, ast.Subscript):
             base = self.ev(target.value, st)
+            if base.ty.k in ('arr1', 'arr1i', 'arr2'):
+                return self.np_store(target, base, v, st, line)
             if base.ty.k == 'dict':
                 k = self.to_key(st, self.ev(target.slice, st))
                 arr = 'valR' if base.ty.a[0].k == 'real' else 'valI'
@@ -1118,6 +1198,30 @@ class Engine:
                 st.heap.set(arr, z3.Store(st.heap.A(arr), base.t, z3.Store(st.heap.A(arr)[base.t], k, val)))
                 return
         raise OutOfSubset('assignment target %s at line %d' % (type(target).__name__, line))
+
+    def np_store(self, target, base, v, st, line):
+        """A[i] = v / A[i, j] = v on a LOCAL numpy array (created in this function, never aliased): value semantics"""
+        if not isinstance(target.value, ast.Name) or base.py != 'fresh':
+            raise OutOfSubset('store into a numpy array that is not a fresh local at line %d' % line)
+        if v.ty.k not in ('int', 'real'):
+            raise OutOfSubset('array store of %r at line %d' % (v.ty, line))
+        idx = self.ev(target.slice, st)
+        if idx.ty.k == 'tuple':
+            idx = V(idx.ty, items=[self.as_int(st, x, line) for x in idx.items])
+        else:
+            idx = self.as_int(st, idx, line)
+        if base.ty.k == 'arr2':
+            if not (idx.ty.k == 'tuple' and len(idx.items) == 2 and all(x.ty.k == 'int' for x in idx.items)):
+                raise OutOfSubset('2-D array store index at line %d' % line)
+            i = self.np_index(st, base, idx.items[0].t, 0, line)
+            j = self.np_index(st, base, idx.items[1].t, 1, line)
+            new = z3.Store(base.t, i, j, to_real(v.t))
+        else:
+            if idx.ty.k != 'int':
+                raise OutOfSubset('array store index at line %d' % line)
+            i = self.np_index(st, base, idx.t, 0, line)
+            new = z3.Store(base.t, i, to_real(v.t) if base.ty.k == 'arr1' else v.t)
+        st.env[target.value.id] = V(base.ty, new, items=base.items, py='fresh')
 
     def unpack(self, st, v, n, line):
         if v.ty.k == 'tuple':
@@ -1150,6 +1254,11 @@ class Engine:
                 cur = vreal(st.heap.get(base.t, k))
                 new = self.arith(s.op, cur, self.ev(s.value, st), st, s.lineno)
                 st.heap.set('valR', z3.Store(st.heap.A('valR'), base.t, z3.Store(st.heap.valR(base.t), k, to_real(new.t))))
+                return [st]
+            if base.ty.k in ('arr1', 'arr1i', 'arr2'):
+                cur = self.ev(t, st)
+                new = self.arith(s.op, cur, self.ev(s.value, st), st, s.lineno)
+                self.np_store(t, base, new, st, s.lineno)
                 return [st]
             raise OutOfSubset('augmented subscript store on %r at line %d' % (base.ty, s.lineno))
         cur = self.ev(t, st)
@@ -1281,6 +1390,21 @@ class Engine:
                     for y in ast.walk(t):
                         if isinstance(y, ast.Name) and isinstance(y.ctx, ast.Store) and y.id not in out:
                             out.append(y.id)
+                    if isinstance(t, ast.Subscript) and isinstance(t.value, ast.Name) and t.value.id not in out:
+                        self.subscript_only.add(t.value.id)   # A[i] = v rebinds a local numpy array (value semantics)
+                        out.append(t.value.id)
+        return out
+
+    def directly_assigned(self, nodes):
+        out = set()
+        for n in nodes:
+            for x in ast.walk(n):
+                tgts = x.targets if isinstance(x, ast.Assign) else ([x.target] if isinstance(x, (ast.AugAssign, ast.For)) else [])
+                for t in tgts:
+                    for y in ([t] if isinstance(t, ast.Name) else (t.elts if isinstance(t, ast.Tuple) else [])):
+                        for z in ast.walk(y):
+                            if isinstance(z, ast.Name) and isinstance(z.ctx, ast.Store):
+                                out.add(z.id)
         return out
 
     def loop_iter(self, s, st):
@@ -1318,7 +1442,9 @@ class Engine:
         it = self.loop_iter(s, st)
         self.flush(st)
         entry = st
+        self.subscript_only = set()
         modified = [m for m in self.assigned_names(s.body) if m in entry.env or True]
+        direct = self.directly_assigned(s.body)
         targets = self.assigned_names([ast.Expr(value=s.target)]) or [x.id for x in ast.walk(s.target) if isinstance(x, ast.Name)]
 
         def ctx(state, pos):
@@ -1343,6 +1469,8 @@ class Engine:
         def havocked(tagname):
             h = entry.fork()
             for m in modified:
+                if m in entry.env and m in self.subscript_only and m not in direct and entry.env[m].ty.k not in ('arr1', 'arr1i', 'arr2'):
+                    continue          # d[k] = v on a dict / list mutates the heap object, the local keeps its identity
                 if m in entry.env and m not in targets:
                     h.env[m] = self.havoc_value(entry.env[m], m)
                 elif m not in targets:
@@ -1422,6 +1550,9 @@ class Engine:
     def havoc_value(self, v, name):
         if v.ty.k in ('tuple', 'py', 'none', 'typeof', 'exc', 'set', 'range'):
             raise OutOfSubset('loop modifies variable %s of type %r' % (name, v.ty))
+        if v.ty.k in ('arr1', 'arr1i', 'arr2'):
+            srt = {'arr1': IA_R, 'arr1i': IA_I, 'arr2': A2}[v.ty.k]
+            return V(v.ty, fresh(name, srt), items=v.items, py=v.py)
         nv = fresh_value(v.ty, name)
         nv.py = v.py
         return nv
@@ -1436,12 +1567,12 @@ class Engine:
             h.heap.set(name, sym[name])
         h.heap.alloc = fresh('alloc', I)
         h0glob = dict(h.heap.glob)
+        direct = self.directly_assigned(s.body)
         for m in modified:
             if m in entry.env:
-                try:
-                    h.env[m] = self.havoc_value(entry.env[m], m)
-                except OutOfSubset:
-                    raise
+                if m in self.subscript_only and m not in direct and entry.env[m].ty.k not in ('arr1', 'arr1i', 'arr2'):
+                    continue
+                h.env[m] = self.havoc_value(entry.env[m], m)
         pos = self.loop_pos_symbolic(it, h, entry)
         h.ghost[n] = pos
         saved = (self.exits, self.pending_exits, self.obls, self.loop_ord, self.discovery, self.prune)
